@@ -325,7 +325,51 @@ def evaluate(cap=2.0, docs=None):
     return viol, stats
 
 
+# ------------------------------------------------------------------ documents whose reading fans out
+
+def nested_legacy(depth):
+    """A pre-productmd treeinfo in which every level lists both sections of the next one as its addons."""
+    text = "[general]\nfamily = F\nversion = 1\narch = x86_64\nvariant = A0\ntimestamp = 1.0\npackagedir = P\n"
+    for i in range(depth):
+        for x in "AB":
+            text += "[variant-%s%d]\naddons = A%d,B%d\n" % (x, i, i + 1, i + 1)
+    return text
+
+
+def chained_interpolation(k, levels=9):
+    """A treeinfo whose [release] name refers k times to an option that refers k times to the next one ..."""
+    text = "[header]\nversion = 1.2\ntype = productmd.treeinfo\n[release]\nshort = F\nversion = 1\nname = " + "%(a1)s" * k + "\n"
+    for i in range(1, levels):
+        text += "a%d = %s\n" % (i, ("%%(a%d)s" % (i + 1)) * k)
+    text += "a%d = x\n" % levels
+    return text + "[tree]\narch = x86_64\nbuild_timestamp = 1\nplatforms = x86_64\nvariants =\n"
+
+
+def evaluate_fanout(cap=10.0, quick=False):
+    """-> [(case, why)]: growth of the reading time of two document families with the document's length."""
+    out = []
+    ld = Loader(False)
+    try:
+        for family, make, params in (("legacy-nested-addons", nested_legacy, (10, 17) if quick else (6, 8, 10, 12, 14, 16, 18)),
+                                     ("chained-interpolation", chained_interpolation, (3, 7) if quick else (2, 3, 4, 5, 6, 7))):
+            prev = None
+            for prm in params:
+                text = make(prm)
+                t, _ = ld.load("productmd.treeinfo.TreeInfo", text, cap)
+                if t is None:
+                    out.append(({"family": family, "param": prm, "bytes": len(text), "cls": "productmd.treeinfo.TreeInfo", "text": text, "doc": family},
+                                "TreeInfo.loads of a %d-byte document (%s, parameter %d) did not finish within %.0f s%s"
+                                % (len(text), family, prm, cap, "" if prev is None else "; %d bytes took %.2f s" % (prev[0], prev[1]))))
+                    break
+                prev = (len(text), t)
+    finally:
+        ld.close()
+    return out
+
+
 def replay(case, cap=2.0):
+    if case.get("family"):
+        cap = 4.0
     ld = Loader(False)
     try:
         t, _ = ld.load(case["cls"], case["text"], cap)
